@@ -143,7 +143,10 @@ public :
     {
         assert(m_bufferSize > 0);
 
-        if (m_buffer.size() == m_bufferSize)
+        // Do not flush between the two halves of a surrogate pair,
+        // because the transcoder needs to see them together.
+        if (m_buffer.size() >= m_bufferSize &&
+            (m_buffer.back() < 0xD800u || m_buffer.back() > 0xDBFFu))
         {
             flushBuffer();
         }
